@@ -12,6 +12,14 @@ type Root = tree.Root
 
 type Bytes32 = Root
 
+// RootViewOf returns a tree node holding a copy of r. A *RootView is itself the leaf node of the tree, so
+// converting a pointer to a struct field, (*RootView)(&s.Field), would make the tree alias the caller's struct:
+// a later write to the struct changes the leaf under already cached parent hashes.
+func RootViewOf(r Root) *RootView {
+	v := RootView(r)
+	return &v
+}
+
 const Bytes32Type = RootType
 
 type CommitteeIndex Uint64View
